@@ -13,3 +13,12 @@ def use_repo():
     if repo and repo not in sys.path[:1]:
         sys.path.insert(0, repo)
     return repo or "/repo"
+
+
+def dyn(v):
+    """An equal but NOT identical (not interned) copy of a string option value, as a program gets from a
+    config file, argv or JSON: `x is "fold"` style identity tests in the library then behave as they do for such
+    callers. One-character strings are cached by CPython and returned as they are."""
+    if type(v) is str and len(v) > 1:
+        return (v + "\0")[:-1]
+    return v
